@@ -157,6 +157,7 @@ func init() {
 			c.rulesR5misc("C13", a)
 			c.rulesR6misc("C13", a)
 			c.rulesR7misc("C13")
+			c.rulesR7misc("C13q")
 			c.rulesR3misc("C13")
 			c.rulesR3misc("C06") // C06.close: a waiter collected but never closed survives Dispose
 			c.rulesC13send(c.lockAnalysis())
@@ -319,6 +320,7 @@ func init() {
 		c.rulesR4fresh()
 		c.rulesR4nilctx()
 		c.rulesR6delall()
+		c.rulesR7misc("C13q") // the ask/cant helpers return only if disposal answers queued checks
 		c.rulesR4scanall()
 		c.rulesR4qdone()
 		c.rulesR4clone()
